@@ -12,7 +12,8 @@ pub enum Ty {
 }
 
 fn rand_u256(r: &mut Rng) -> U256 {
-    match r.below(8) {
+    match r.below(9) {
+        8 => U256::from_words(1 + r.below(3) as u128, r.below(70000) as u128), // high half set, small low half
         0 => U256::ZERO,
         1 => U256::ONE,
         2 => U256::from(r.below(40)),
@@ -159,7 +160,11 @@ pub fn typed_program(r: &mut Rng, max_len: usize) -> Vec<OpCode> {
                 // small index/ints for slices and refs
                 let mut p = push_of(r, *t);
                 if *t == I && matches!(op, VRef | VSet | BRef | BSet | VSlice | BSlice | Store | Load | Shl | Shr) {
-                    p = vec![PushIC(U256::from(r.below(5)))];
+                    p = match r.below(12) {
+                        0 => vec![PushI(U256::from_words(1 + r.below(2) as u128, r.below(4) as u128))],
+                        1 => vec![PushIC(U256::from(65535u32 + r.below(3) as u32))],
+                        _ => vec![PushIC(U256::from(r.below(5)))],
+                    };
                 }
                 prefix.extend(p);
                 have.push(*t);
@@ -211,7 +216,7 @@ pub fn loopy_program(r: &mut Rng) -> Vec<OpCode> {
     let mut ops = vec![PushIC(U256::from(0u8))];
     let n = 2 + r.below(8);
     for _ in 0..n {
-        match r.below(10) {
+        match r.below(11) {
             0..=3 => {
                 let body = 1 + r.below(4) as u16;
                 let over = if r.chance(1, 6) { r.below(3) as u16 } else { 0 };
@@ -232,6 +237,17 @@ pub fn loopy_program(r: &mut Rng) -> Vec<OpCode> {
                 }
             }
             4 => ops.push(Jmp(r.below(4) as u16)),
+            9 => {
+                // a jump over the header of a zero-iteration loop, landing inside its body
+                let body = 1 + r.below(3) as u16;
+                ops.push(Jmp(1));
+                ops.push(Loop(0, body + 2));
+                ops.push(Loop(2 + r.below(6) as u16, body));
+                for _ in 0..body {
+                    ops.push(Noop);
+                }
+                ops.push(Noop);
+            }
             5 => {
                 ops.push(Dup);
                 ops.push(Bez(r.below(3) as u16));
